@@ -91,6 +91,21 @@ def check(prop, tier, seed):
                     i += 1
         if used:
             grammars.append((lists, used))
+    # one-dimension scale: very long attribute bodies (nested brackets of all three kinds, multi-byte text) and MANY
+    # attributes on one declaration; the law (verbatim, in order, exactly once, immediately before the type) does not
+    # depend on length, so the same placement check decides
+    for rep in range(2 if tier == "quick" else 12):
+        lists = {name: [] for name in DECLS}
+        big = rng.choice(DECLS)
+        for _ in range(40 if tier == "quick" else 150):
+            counter[0] += 1
+            lists[big].append("#[m%d %s]" % (counter[0], rng.choice(["a", "é", "x(y)", "{z}", "[w]"])))
+        for name in DECLS:
+            if name != big:
+                counter[0] += 1
+                unit = rng.choice(["a(é[€{😀}])", "k = \"v\", ", "(x)[y]{z}", "日本語 "])
+                lists[name].append("#[l%d %s]" % (counter[0], unit * rng.randint(200, 1500 if tier == "quick" else 8000)))
+        grammars.append((lists, []))
     srcs = [build_grammar(l) for l, _ in grammars]
     resps = common.kv("gen", [{"id": k, "src": s, "want": ["rust"]} for k, s in enumerate(srcs)], timeout=1800)
     for (lists, used), src, o in zip(grammars, srcs, resps):
